@@ -245,6 +245,8 @@ impl InfixOpManager {
         op_associativity: InfixOpAssociativity,
         f: Arc<InfixOpFunc>,
     ) {
+        #[cfg(feature = "verif-hooks")]
+        crate::verif_hooks::probe("infix:register");
         self.store.lock().unwrap().insert(
             op.to_string(),
             InfixOpConfig(precidence, op_type, op_associativity, f),
@@ -276,6 +278,8 @@ impl InfixOpManager {
     }
 
     pub fn get(&self, op: &str) -> Result<InfixOpConfig> {
+        #[cfg(feature = "verif-hooks")]
+        crate::verif_hooks::probe("infix:get");
         let binding = self.store.lock().unwrap();
         let ans = binding.get(op);
         if ans.is_none() {
@@ -285,6 +289,8 @@ impl InfixOpManager {
     }
 
     pub fn operators(&self) -> Vec<(String, i32)> {
+        #[cfg(feature = "verif-hooks")]
+        crate::verif_hooks::probe("infix:operators");
         let mut ans = vec![];
         let binding = self.store.lock().unwrap();
         for (op, InfixOpConfig(precedence, _, _, _)) in binding.iter() {
@@ -295,6 +301,8 @@ impl InfixOpManager {
     }
 
     pub fn exist(&self, op: &str) -> bool {
+        #[cfg(feature = "verif-hooks")]
+        crate::verif_hooks::probe("infix:exist");
         let binding = self.store.lock().unwrap();
         binding.get(op).is_some()
     }
@@ -380,10 +388,14 @@ impl PrefixOpManager {
     }
 
     pub fn register(&mut self, op: &str, f: Arc<PrefixOpFunc>) {
+        #[cfg(feature = "verif-hooks")]
+        crate::verif_hooks::probe("prefix:register");
         self.store.lock().unwrap().insert(op.to_string(), f);
     }
 
     pub fn get(&self, op: &str) -> Result<Arc<PrefixOpFunc>> {
+        #[cfg(feature = "verif-hooks")]
+        crate::verif_hooks::probe("prefix:get");
         let binding = self.store.lock().unwrap();
         let ans = binding.get(op);
         if ans.is_none() {
@@ -393,6 +405,8 @@ impl PrefixOpManager {
     }
 
     pub fn exist(&self, op: &str) -> bool {
+        #[cfg(feature = "verif-hooks")]
+        crate::verif_hooks::probe("prefix:exist");
         let binding = self.store.lock().unwrap();
         binding.get(op).is_some()
     }
@@ -430,10 +444,14 @@ impl PostfixOpManager {
     }
 
     pub fn register(&mut self, op: &str, f: Arc<PostfixOpFunc>) {
+        #[cfg(feature = "verif-hooks")]
+        crate::verif_hooks::probe("postfix:register");
         self.store.lock().unwrap().insert(op.to_string(), f);
     }
 
     pub fn get(&self, op: &str) -> Result<Arc<PostfixOpFunc>> {
+        #[cfg(feature = "verif-hooks")]
+        crate::verif_hooks::probe("postfix:get");
         let binding = self.store.lock().unwrap();
         let ans = binding.get(op);
         if ans.is_none() {
@@ -443,8 +461,75 @@ impl PostfixOpManager {
     }
 
     pub fn exist(&self, op: &str) -> bool {
+        #[cfg(feature = "verif-hooks")]
+        crate::verif_hooks::probe("postfix:exist");
         let binding = self.store.lock().unwrap();
         binding.get(op).is_some()
+    }
+}
+
+#[cfg(feature = "verif-hooks")]
+impl InfixOpManager {
+    pub fn verif_lock_free(&self) -> bool {
+        self.store.try_lock().is_ok()
+    }
+
+    pub fn verif_snapshot(&self) -> Vec<(String, i32, bool, bool, usize)> {
+        let mut ans: Vec<(String, i32, bool, bool, usize)> = self
+            .store
+            .lock()
+            .unwrap()
+            .iter()
+            .map(|(k, v)| {
+                (
+                    k.clone(),
+                    v.0,
+                    matches!(v.1, InfixOpType::SETTER),
+                    v.2 == InfixOpAssociativity::RIGHT,
+                    Arc::as_ptr(&v.3) as *const () as usize,
+                )
+            })
+            .collect();
+        ans.sort();
+        ans
+    }
+}
+
+#[cfg(feature = "verif-hooks")]
+impl PrefixOpManager {
+    pub fn verif_lock_free(&self) -> bool {
+        self.store.try_lock().is_ok()
+    }
+
+    pub fn verif_snapshot(&self) -> Vec<(String, usize)> {
+        let mut ans: Vec<(String, usize)> = self
+            .store
+            .lock()
+            .unwrap()
+            .iter()
+            .map(|(k, v)| (k.clone(), Arc::as_ptr(v) as *const () as usize))
+            .collect();
+        ans.sort();
+        ans
+    }
+}
+
+#[cfg(feature = "verif-hooks")]
+impl PostfixOpManager {
+    pub fn verif_lock_free(&self) -> bool {
+        self.store.try_lock().is_ok()
+    }
+
+    pub fn verif_snapshot(&self) -> Vec<(String, usize)> {
+        let mut ans: Vec<(String, usize)> = self
+            .store
+            .lock()
+            .unwrap()
+            .iter()
+            .map(|(k, v)| (k.clone(), Arc::as_ptr(v) as *const () as usize))
+            .collect();
+        ans.sort();
+        ans
     }
 }
 
